@@ -557,3 +557,60 @@ func VerifC14_EnsureRoutesRemovesWhatTheScriptRemoved() {
 		verifrt.Assert(done && len(c.Log) == 0, "C14.update.doneWhenNothingDiffers")
 	}
 }
+
+// VerifC14_BuildCanaryIngressKeepsPathDetails: "the stable paths re-targeted" means each copied path is the stable
+// path in every respect but the Service name — path type and Service port included — and the canary Ingress serves
+// them under the same ingress class and TLS configuration.
+func VerifC14_BuildCanaryIngressKeepsPathDetails() {
+	r := c14Ctl("nginx")
+	ing := &netv1.Ingress{ObjectMeta: metav1.ObjectMeta{Name: c14Name, Namespace: "ns"}}
+	if verifrt.Bool("ing.hasClass") {
+		cls := "nginx"
+		ing.Spec.IngressClassName = &cls
+	}
+	if verifrt.Bool("ing.hasTLS") {
+		ing.Spec.TLS = []netv1.IngressTLS{{Hosts: []string{"shop.example.com"}, SecretName: "shop-tls"}}
+	}
+	types := []netv1.PathType{netv1.PathTypeExact, netv1.PathTypePrefix, netv1.PathTypeImplementationSpecific}
+	rule := netv1.IngressRule{Host: "shop.example.com", IngressRuleValue: netv1.IngressRuleValue{HTTP: &netv1.HTTPIngressRuleValue{}}}
+	n := verifrt.Concrete(verifrt.IntRange("rule.nPaths", 1, 2))
+	var ports []netv1.ServiceBackendPort
+	for j := 0; j < n; j++ {
+		p := netv1.HTTPIngressPath{Path: []string{"/", "/cart"}[j]}
+		if k := verifrt.IntRange("path.type", 0, 3); k > 0 {
+			t := types[k-1]
+			p.PathType = &t
+		}
+		port := netv1.ServiceBackendPort{Number: int32(verifrt.IntRange("path.port", 1, 65535))}
+		if verifrt.Bool("path.namedPort") {
+			port = netv1.ServiceBackendPort{Name: "http"}
+		}
+		p.Backend = netv1.IngressBackend{Service: &netv1.IngressServiceBackend{Name: c14Stable, Port: port}}
+		ports = append(ports, port)
+		rule.HTTP.Paths = append(rule.HTTP.Paths, p)
+	}
+	ing.Spec.Rules = []netv1.IngressRule{rule}
+	out := r.buildCanaryIngress(ing)
+	ok := len(out.Spec.Rules) == 1 && out.Spec.Rules[0].HTTP != nil && len(out.Spec.Rules[0].HTTP.Paths) == n
+	verifrt.Assert(ok, "C14.build.details.allPathsCopied")
+	if !ok {
+		return
+	}
+	for j := 0; j < n; j++ {
+		s, c := rule.HTTP.Paths[j], out.Spec.Rules[0].HTTP.Paths[j]
+		verifrt.Assert(c.Path == s.Path, "C14.build.details.path")
+		verifrt.Assert((c.PathType == nil) == (s.PathType == nil), "C14.build.details.pathTypeKept")
+		if c.PathType != nil && s.PathType != nil {
+			verifrt.Assert(*c.PathType == *s.PathType, "C14.build.details.pathTypeKept")
+		}
+		verifrt.Assert(c.Backend.Service != nil && c.Backend.Service.Name == c14Canary && c.Backend.Service.Port == ports[j], "C14.build.details.portKeptServiceRetargeted")
+	}
+	verifrt.Assert((out.Spec.IngressClassName == nil) == (ing.Spec.IngressClassName == nil), "C14.build.details.ingressClassKept")
+	if out.Spec.IngressClassName != nil && ing.Spec.IngressClassName != nil {
+		verifrt.Assert(*out.Spec.IngressClassName == *ing.Spec.IngressClassName, "C14.build.details.ingressClassKept")
+	}
+	verifrt.Assert(len(out.Spec.TLS) == len(ing.Spec.TLS), "C14.build.details.tlsKept")
+	// (the in-memory stable Ingress handed in shares its backend.Service pointers with the result and comes back
+	// renamed; it is a private copy that EnsureRoutes never writes or reads again — that the *stored* stable Ingress is
+	// never written is C14.ensure.onlyCanaryWritten)
+}
